@@ -122,6 +122,7 @@ def main():
             {"name": "GribiClient", "path": "/verif/spec/GribiClient.tla", "serves_properties": ["C13", "C14"], "kind_free_text": "client library spec + GribiClient_MC + GribiClientTrace; vh client-run with scripted stub stream"},
             {"name": "GribiServerSched", "path": "/verif/spec/GribiServerSched.tla", "serves_properties": ["C04", "C05", "C11"], "kind_free_text": "handler-segment grain spec of concurrent Modify sessions and Flush on top of GribiServerCS + GribiServerSched_MC (all interleavings, schedule emission) + GribiServerSchedTrace; vh sched-run replays schedules through the server's gates"},
             {"name": "GribiRIBConc", "path": "/verif/spec/GribiRIBConc.tla", "serves_properties": ["C01", "C08"], "kind_free_text": "lock-grain spec of Flush over several network instances vs concurrent installs (linearizability) + GribiRIBConc_MC + GribiRIBConcTrace; vh lin-run records stamped concurrent histories of the real rib package"},
+            {"name": "GribiElectionInd", "path": "/verif/spec/GribiElectionInd.tla", "serves_properties": ["C05"], "kind_free_text": "election core with unbounded ids; inductive invariant (ElecIsMax, PrimaryAnnouncedIt) discharged by apalache-mc (base case + induction step)"},
             {"name": "GribiGetProc", "path": "/verif/spec/GribiGetProc.tla", "serves_properties": ["C10", "C07"], "kind_free_text": "goroutine-grain spec of the Get RPC (producer holding the read lock, consumer, writer); TLC safety + liveness under weak fairness; bound through directed abandoned / slow-consumer Gets in vh srv-run"},
             {"name": "GribiModifyProc", "path": "/verif/spec/GribiModifyProc.tla", "serves_properties": ["C10", "C09"], "kind_free_text": "goroutine-grain spec of one Modify RPC (handler, receive loop, result pump, unbuffered channels, session-table lock); TLC safety + liveness; bound through directed mid-batch write failures in vh srv-run"},
             {"name": "GribiClientProc", "path": "/verif/spec/GribiClientProc.tla", "serves_properties": ["C13", "C14"], "kind_free_text": "goroutine-grain spec of the client (application, sender, receiver, channels, RWMutex) + GribiClientProc_MC (safety, schedule emission) + GribiClientProc_Live (termination under fairness) + GribiClientProcTrace; vh proc-run replays schedules through the client's scheduler gates"},
